@@ -209,6 +209,18 @@ def gen_docs(prop, seed, n, profile="F", replay=None, max_depth=3, features=None
                   {"type": "object", "properties": {"name": {}}, "additionalProperties": True}]
             out.append(("ct%02d" % j, {"definitions": {"Closed": {"allOf": [br[order[0]], br[order[1]]]}}}, ["allof_objects", "closed_and_explicitly_open"]))
     if profile in ("F", "C05"):
+        # strings whose bounds sit at the end of their range, and enums whose values differ in surrounding whitespace only
+        out.append(("ds00", {"definitions": {
+            "Empty": {"type": "string", "maxLength": 0}, "EmptyPat": {"type": "string", "maxLength": 0, "pattern": "^[a-z]*$"},
+            "AnyLen": {"type": "string", "minLength": 0}, "One": {"type": "string", "minLength": 1, "maxLength": 1},
+            "Holder": {"type": "object", "properties": {"e": {"$ref": "#/definitions/Empty"},
+                                                        "inline": {"type": "string", "maxLength": 0}}}}},
+                    ["string_constrained", "degenerate_bounds"]))
+        # (typify refuses these today -- the values collide as identifiers -- which satisfies the properties; a change that
+        # makes it accept them must keep every value)
+        out.append(("ds01", {"definitions": {"Padded": {"type": "string", "enum": ["tab", "tab ", "other"]}}}, ["string_enum", "padded_values"]))
+        out.append(("ds02", {"definitions": {"Blank": {"type": "string", "enum": ["", " ", "x"]}}}, ["string_enum", "padded_values"]))
+    if profile in ("F", "C05"):
         # OPTIONAL containers that may not be empty when present: omitted must stay omitted
         oc = {"type": "object", "required": ["name"], "properties": {
             "name": {"type": "string"},
